@@ -46,7 +46,7 @@ impl SqliteAdapter {
             .unwrap()
             .borrow()
             .execute(
-                "CREATE TABLE entries (key VARCHAR NOT NULL PRIMARY KEY, value VARCHAR NOT NULL)",
+                "CREATE TABLE IF NOT EXISTS entries (key VARCHAR NOT NULL PRIMARY KEY, value VARCHAR NOT NULL)",
                 [],
             )
             .unwrap();
